@@ -660,14 +660,14 @@ func (e *Evaluator) evalBinaryExpr(expr *ExprBinary) (*Cell, error) {
 		case Multiply:
 			return NewCell(NewValue(leftNum * rightNum)), nil
 		case Divide:
-			if leftNum == 0 || rightNum == 0 {
+			if rightNum == 0 {
 				return nil, e.error(expr.OpToken, "divide by zero")
 			}
 			return NewCell(NewValue(leftNum / rightNum)), nil
 		case Percent:
 			leftInt := int(leftNum)
 			rightInt := int(rightNum)
-			if leftInt == 0 || rightInt == 0 {
+			if rightInt == 0 {
 				return nil, e.error(expr.OpToken, "divide by zero")
 			}
 			return NewCell(NewValue(leftInt % rightInt)), nil
